@@ -31,13 +31,13 @@ def run(ck):
         if len(ck.samples) < 3 and op["m"] == "rangekeys" and e["ret"]["ks"]:
             ck.sample({"backend": backend, "op": op, "expected": e["ret"], "observed": got})
         if op["m"] == "xfer":
-            exp = {"simple": e["ret"]["simple"], "kids": [sorted(k) for k in e["ret"]["kids"]]}
+            exp = {"simple": e["ret"]["simple"], "kids": [sorted(k) for k in e["ret"]["kids"]], "lease": [bool(x) for x in e["ret"]["lease"]]}
             for into in kvlib.BACKENDS:
                 o = got.get(into)
                 if got.get("e") != "ok" or o is None:
                     ck.violation("C17:%s->%s:transfer-error" % (backend, into), "export/import failed: %s" % json.dumps(got)[:300], rep)
                     break
-                if {"simple": o["simple"], "kids": o["kids"]} != exp:
+                if {"simple": o["simple"], "kids": o["kids"], "lease": o["lease"]} != exp:
                     ck.violation("C17:%s->%s:transfer" % (backend, into), "keys %s exported from %s and imported into an empty %s store give %s, expected %s"
                                  % (op["ks"], backend, into, json.dumps(o), json.dumps(exp)), rep)
                 exp_listed = sorted("".join(x) for x in e["ret"]["listed"])
@@ -60,7 +60,7 @@ def run(ck):
         what = None
         if exp_ret != got_ret:
             what = "reply %s, the contract says %s" % (json.dumps(got), json.dumps(e["ret"]))
-        elif {k: exp_st[k] for k in ("simple", "kids")} != {k: got_st[k] for k in ("simple", "kids")}:
+        elif {k: exp_st[k] for k in ("simple", "kids", "lease")} != {k: got_st[k] for k in ("simple", "kids", "lease")}:
             what = "store after the operation is %s, the contract says %s" % (json.dumps(got_st), json.dumps(exp_st))
         if what and op["m"] == "rangekeys" and exp_st == got_st and backend in ("memory", "aof"):
             extra = set(got_ret.get("ks", [])) - set(exp_ret.get("ks", []))
